@@ -86,6 +86,7 @@ SHIMS = {
     "aln_run.c": "shim_aln_run.c",
     "bisectingKmeans.c": "shim_kmeans.c",
     "aln_controller.c": "shim_controller.c",
+    "bpm.c": "shim_bpm.c",
 }
 # CLI sources reached through shims (src/run_kalign.c is #included by harness/shim_run_kalign.c)
 
@@ -95,7 +96,8 @@ OPS_DEPS = {
     "ops_io.c": ["shim_msa_io.c"],
     "ops_dp.c": ["shim_controller.c", "shim_aln_run.c"],
     "ops_param.c": ["shim_run_kalign.c"],
-    "ops_bpm.c": ["shim_kmeans.c"],
+    "ops_bpm.c": ["shim_kmeans.c", "shim_bpm.c"],
+    "ops_kmeans.c": ["shim_kmeans.c", "shim_kmeans_serial.c"],
     "ops_weave.c": [],
     "ops_ref.c": [],
     "ops_sys.c": [],
@@ -110,7 +112,7 @@ VARIANTS = {
              ["-fsanitize=address,undefined", "-fopenmp", "-lm"]),
     "plain": ("gcc", ["-O2", "-g", "-fopenmp", "-DHAVE_OPENMP", "-mavx2", "-DHAVE_AVX2", "-ffp-contract=off"],
               ["-fopenmp", "-lm"]),
-    "noomp": ("gcc", ["-O2", "-g", "-mavx2", "-DHAVE_AVX2", "-ffp-contract=off", "-Wno-unknown-pragmas"], ["-lm"]),
+    "noomp": ("gcc", ["-O2", "-g", "-mavx2", "-DHAVE_AVX2", "-ffp-contract=off", "-Wno-unknown-pragmas", "-DKV_MEMCOUNT", "-fno-builtin-malloc", "-fno-builtin-free"], ["-lm"]),
     "noavx": ("gcc", ["-O2", "-g", "-fopenmp", "-DHAVE_OPENMP", "-ffp-contract=off"], ["-fopenmp", "-lm"]),
     "tsan": ("clang-14", ["-O1", "-g", "-fsanitize=thread", "-fopenmp", "-DHAVE_OPENMP", "-mavx2", "-DHAVE_AVX2",
                           "-ffp-contract=off"], ["-fsanitize=thread", "-fopenmp", "-lm"]),
